@@ -5,6 +5,10 @@
 patch=$(readlink -f "$1"); prop=$2; tier=${3:-quick}
 wt=${VERIF_SEED_WT:-/var/tmp/verif-scratch/seed-wt}
 cd "$(dirname "$0")"
+# one run per scratch worktree at a time (two runs sharing it would mix their trees)
+mkdir -p "$(dirname "$wt")"
+exec 9> "$wt.lock"
+flock 9
 if [ ! -d "$wt" ]; then git -C /repo worktree add -q --detach "$wt" HEAD || exit 9; fi
 git -C "$wt" checkout -q --detach "$(git -C /repo rev-parse HEAD)" && git -C "$wt" checkout -q -- . || exit 9
 cp /repo/Cargo.lock "$wt"/Cargo.lock 2>/dev/null
